@@ -312,12 +312,16 @@ func (e *Exec) tryMerge(pre *State, outs []Outcome, fn *ssa.Function) (res []Out
 		return outs
 	}
 	for _, o := range outs {
-		if o.st.base != pre.base || o.st.allocN != pre.allocN || len(o.st.heaps) != len(pre.heaps) {
+		if o.st.base != pre.base || o.st.allocN != pre.allocN {
 			return outs
 		}
 		for k, h := range o.st.heaps {
-			if pre.heaps[k] != h {
-				return outs
+			if ph, had := pre.heaps[k]; had {
+				if ph != h {
+					return outs
+				}
+			} else if h.Op != "var" {
+				return outs // (a component first read inside the callee is just its initial variable: no effect)
 			}
 		}
 	}
